@@ -114,5 +114,26 @@ class FrechetFn(Entry):
         return Fn.gaussian_frechet_distance(f(b["mx"]), f(b["cx"]), f(b["my"]), f(b["cy"]))
 
 
+class FrechetFnRankDeficient(FrechetFn):
+    """covariances of fewer samples than dimensions (rank-deficient, exact zero eigenvalues of the product: the
+    numerically computed ones come back as tiny values of either sign)"""
+    name = "gaussian_frechet_distance[rank-deficient]"
+    tol = Fraction(1, 2 ** 18)            # sqrt of an eigenvalue that is 0 up to 1e-16 contributes up to 1e-8
+
+    def configs(self, rng, quick=True):
+        return [{"_d": 2, "_rank": 1}, {"_d": 3, "_rank": 1}, {"_d": 3, "_rank": 2}, {"_d": 4, "_rank": 2}]
+
+    def _psd(self, rng, d, r):
+        a = [[Fraction(rng.randint(-4, 4), 2) for _ in range(r)] for _ in range(d)]
+        return [[sum(a[i][k] * a[j][k] for k in range(r)) for j in range(d)] for i in range(d)]
+
+    def gen_batch(self, rng, cfg, n):
+        d, r = cfg["_d"], cfg["_rank"]
+        which = rng.choice(["both", "x", "y"])
+        return {"mx": grid(rng, d, 4, -8, 8), "cx": self._psd(rng, d, r) if which != "y" else self._spd(rng, d),
+                "my": grid(rng, d, 4, -8, 8), "cy": self._psd(rng, d, r) if which != "x" else self._spd(rng, d)}
+
+
 FRECHET_FN = FrechetFn()
+FRECHET_FN_RD = FrechetFnRankDeficient()
 ENTRIES = [FADE()]
